@@ -49,7 +49,17 @@ TRUSTED = ['translator tools/extract/algebra_dispatch.py (AST of the overloads a
            '__array_priority__, reflected-first rule for subclasses) as encoded in `build`',
            'leaf operators are opaque in the theorems (EnvOK: flagged-linear leaves are linear, '
            'Functional leaves return scalars); their executable versions in the driver are tested only']
-ASSUMPTIONS = ['all spaces of one expression are over one field (all-real or all-complex tree)',
+ASSUMPTIONS = ['EnvOK: a leaf flagged is_linear is additive and homogeneous for the scalars in R (R = all '
+               'scalars, or the real ones when a leaf is only real-linear such as RealPart-based '
+               'leaves on cn); a Functional leaf returns a scalar; scalars marked Real are in R',
+               'the model has one field per tree (all-real or all-complex); trees mixing rn and cn '
+               '(RealPart, ImagPart, ComplexEmbedding) are checked against the documented table '
+               'only (oracle stream `mixed`), no theorem covers them',
+               'points where a FunctionalQuotient divisor vanishes, `A / 0`, `(f/g) * 0` with '
+               'g(0) = 0 and float overflow are outside the statements (Lean x/0 = 0); such cases '
+               'are executed and counted under skip/…, not compared',
+               'in-place evaluation: only the operand order of the out= branches is modelled '
+               '(runIn); buffers/temporaries/aliasing are C03/C10 and only tested here',
                'floating-point rounding is outside the model; values are on a dyadic grid and '
                'compared exactly when every intermediate value has <= 45 significant bits, '
                'otherwise with relative tolerance 1e-9',
@@ -691,6 +701,12 @@ def run_real(case, pool, spaces, pool_ids):
         res['lin'] = bool(op.is_linear)
         res['fn'] = isinstance(op, odl.solvers.Functional)
     except Exception as e:  # noqa
+        if 'quot' in case['forms'] and 'non-finite' in str(e):
+            # a quotient evaluated eagerly at a zero of its divisor (f*0 -> Constant(f(0))) with
+            # NumPy floats: inf/nan instead of ZeroDivisionError; undefined everywhere
+            res['status'] = 'skip'
+            res['skip'] = 'undefined-everywhere(non-finite constant)'
+            return res
         res['problems'].append('introspection failed: {}: {}'.format(type(e).__name__, e))
         return res
     if ty is None:
@@ -941,7 +957,7 @@ def systematic_cases(ctx, pool, cplx, leaf_kinds):
             if ty1 is None or ty1[0] == 'F':
                 continue
             twos = level_forms(rng, pool, cplx, one, ty1)
-            keep = (0.2 if cplx else 0.3) if ctx.quick else 0.8
+            keep = (0.1 if cplx else 0.16) if ctx.quick else 0.4
             twos = [t for t in twos if rng.random() < keep]
             for two in twos:
                 if degree(two, pool) > 12:
@@ -1155,7 +1171,7 @@ def m_forms(rng, inner, ty, sp, leaves):
 
 def mixed_cases(ctx, sp, leaves):
     rng = ctx.rng
-    keep = 0.08 if ctx.quick else 0.5
+    keep = 0.05 if ctx.quick else 0.5
     for i in range(len(leaves)):
         base = ('L', i)
         for one in m_forms(rng, base, m_type(base, sp, leaves), sp, leaves):
@@ -1343,6 +1359,9 @@ def process(ctx, cases, pool, spaces, pool_ids, count=True):
         elif mstatus != real['status']:
             ctx.disagree(desc, real['status'] + ' ' + real.get('exc', real.get('tree', '')),
                          ans[:300])
+        elif mstatus == 'ok' and 'fn' not in real:
+            ctx.disagree(desc, 'built, but introspection failed: ' + '; '.join(real['problems'])[:300],
+                         ans[:200])
         elif mstatus == 'ok':
             mty = '{}>{}/{}'.format(real['dom'], real['ran'], int(real['fn']))
             if not trees_match(real.get('tree'), f['tree'], 'quot' in c['forms']):
@@ -1464,7 +1483,8 @@ MODEL_BRANCHES = ['class/' + n for n in (
     'FunctionalRightScalarMult', 'OperatorLeftVectorMult', 'OperatorRightVectorMult',
     'FunctionalRightVectorMult', 'FunctionalLeftVectorMult', 'ConstantFunctional',
     'ZeroFunctional')] + ['dispatch/reflected-first-add', 'dispatch/reflected-first-mul', 'raise/OpTypeError', 'raise/TypeError',
-                          'raise/ZeroDivisionError']
+                          'skip/div-by-zero-scalar(raised)', 'skip/div-by-zero-scalar(built)',
+                          'mixed/well-typed']
 
 
 def run(ctx):
@@ -1481,7 +1501,7 @@ def run(ctx):
 
 def _run(ctx):
     quick = ctx.quick
-    n_rand = 1200 if quick else 8000
+    n_rand = 1000 if quick else 8000
     depth = 6 if quick else 9
     kinds_q = ('pow2', 'mat', 'l2sq', 'linf', 'inner', 'constf', 'repart')
     kinds_t = ('pow2', 'pow3', 'mat', 'scale', 'ident', 'l2sq', 'linf', 'inner', 'constf', 'zerof',
